@@ -413,6 +413,19 @@ func (g *Gen) genC11(n int) error {
 			g.emit("merge %s segs=%s drops=%s", g.fresh("pf"), seg, g.randDrops(nd))
 			g.emit("endpar")
 			g.emit("poolprobe")
+			if i%4 == 1 {
+				// merges of this segment abandoned at various points (the close channel closes inside the
+				// k-th progress report): the segment goes on answering as before, and merges again
+				g.emit("cfg mergebuf=64")
+				for _, k := range []int{1, 4, 9, 17, 33, 60, 100, 170} {
+					g.emit("merge %s segs=%s drops=nil close=report:%d", g.fresh("pc"), seg, k+g.r.Intn(3))
+				}
+				g.emit("cfg mergebuf=%d", 1024*1024)
+				g.dumpIndex(seg)
+				g.emit("q docnums %s ids=%s", seg, hxList(ids))
+				g.emit("merge %s segs=%s drops=nil", g.fresh("pf"), seg)
+				g.st("par.cancelledmerges")
+			}
 			// private doc-value visit states, reused with a growing field list, by goroutines
 			// running in step
 			if fl := sortedFieldNames(u.Fields); len(fl) > 0 && nd > 0 {
@@ -441,6 +454,42 @@ func (g *Gen) genC11(n int) error {
 			}
 			g.emit("merge %s segs=%s drops=nil", g.fresh("pf"), o)
 			g.emit("ref refs %s", o)
+		}
+		if i%4 == 3 {
+			// a copy of the file in which one field's term dictionary no longer loads: calls on that
+			// field fail - alone and among concurrent readers - and every other call answers as before
+			bad := ""
+			for _, fn := range sortedFieldNames(g.univ[o].Fields) {
+				if fn != "_id" && len(g.univ[o].Fields[fn]) > 0 {
+					bad = fn
+					break
+				}
+			}
+			if bad != "" {
+				fb := g.fresh("fb")
+				g.emit("corruptdict %s %s %s how=%s", fb, f, bad, g.pick([]string{"ver", "len0"}))
+				ob := g.fresh("o")
+				g.emit("open %s %s", ob, fb)
+				g.alias(ob, s)
+				someTerm := sortedKeys(g.univ[o].Fields[bad])[0]
+				g.emit("q dict %s %s aut=all lo=* hi=* probe=-", ob, bad)
+				g.emit("par %d rounds=2", 3+g.r.Intn(4))
+				g.emit("q post %s %s %s ex=nil fl=111 ops=N,N", ob, bad, hx([]byte(someTerm)))
+				for _, fn := range sortedFieldNames(g.univ[o].Fields) {
+					g.emit("q dict %s %s aut=all lo=* hi=* probe=-", ob, fn)
+				}
+				var ids [][]byte
+				for _, id := range sortedKeys(g.univ[o].IDs) {
+					ids = append(ids, []byte(id))
+				}
+				g.emit("q docnums %s ids=%s", ob, hxList(ids))
+				g.emit("q stored %s 0 stop=*", ob)
+				g.emit("merge %s segs=%s drops=nil", g.fresh("pf"), ob)
+				g.emit("endpar")
+				g.dumpIndex(ob)
+				g.emit("close %s", ob)
+				g.st("baddict")
+			}
 		}
 		g.emit("close %s", o)
 		g.st("case")
@@ -604,6 +653,9 @@ func (g *Gen) genC18(n int) error {
 		g.dumpIndex(m)
 		g.dumpStored(m)
 		g.emit("close %s", m)
+		// the inputs of all those abandoned merges still answer
+		g.dumpIndex(s1)
+		g.dumpIndex(s2)
 		g.st("case")
 	}
 	return nil
